@@ -17,7 +17,8 @@ RULE = (
     "reference tokenizer allows adjacency, and N random layouts (blanks, tabs, newlines, indentation, linemarkers of 8 forms "
     "that change line and file between arbitrary tokens, #pragma lines kept on their own line); model programs are also "
     "re-rendered with redundant parentheses around Hypothesis-chosen non-comma operands (and with every operand "
-    "parenthesised). Oracle (metamorphic): every variant parses, and has the same dump (coordinates aside) and the same "
+    "parenthesised); exhaustively, every expression tree with <= 2 (quick) / 3 (thorough, reduced alphabet) operator nodes of the C02 "
+    "alphabet with every subset of its operands - identifiers and constants included - redundantly parenthesised. Oracle (metamorphic): every variant parses, and has the same dump (coordinates aside) and the same "
     "CGenerator output as the plain rendering. Non-trivial: a variant pair differing in >= 1 linemarker placed between two "
     "tokens and >= 1 redundant parenthesis (model programs) / >= 1 linemarker (corpus); distinct by hash of the variant text."
 )
@@ -117,6 +118,55 @@ def random_shard(arg):
     return st
 
 
+def paren_enum_shard(arg):
+    """Exhaustive: every expression tree with <= 2 operator nodes (the C02
+    alphabet), every subset of its non-comma operands - identifiers and
+    constants included - wrapped in redundant parentheses (all subsets up to 5
+    operands, 32 spread subsets beyond), in a rotating context."""
+    import itertools
+
+    from ..unitcheck import EXPR_CONTEXTS, unit_text
+    from . import c02
+
+    n, first_kind = arg
+    st = Stats()
+    name, ar, mk = c02.first_kind_lookup(first_kind)
+    idx = 0
+    for split in c02._splits(n - 1, ar):
+        for kids in itertools.product(*[list(c02.trees(k, c02.KINDS)) for k in split]):
+            e = mk(*kids)
+            idx += 1
+            ci = idx % len(EXPR_CONTEXTS)
+            tu = M.freshen(EXPR_CONTEXTS[ci][1](e))
+            npos = [0]
+
+            def count(node):
+                npos[0] += 1
+                return False
+
+            base = unit_text(tu, "red", count)
+            out = parse_outcome(base, "f.c", ("f.c",))
+            if out[0] != "ast":
+                st.classes["base_not_accepted"] += 1
+                continue
+            bd, bg = dump(out[1]), gen_text(out[1])
+            k = min(npos[0], 16)
+            masks = range(1, 1 << k) if k <= 5 else sorted({((i * 0x9E3779B1) >> 7) % (1 << k) or 1 for i in range(1, 33)})
+            for pm in masks:
+                text = unit_text(tu, "red", M.paren_from_mask(pm))
+                st.evaluations += 1
+                try:
+                    compare(bd, bg, text, "redundant parentheses, operand subset %s" % bin(pm), ("parenenum", e, ci, pm, text))
+                except CheckFailure as f:
+                    st.failures.append(f.failure)
+                    if len(st.failures) > 20:
+                        return st
+                st.nontrivial += 1
+            if idx % 501 == 1:
+                st.sample(text.split("\n", 1)[1])
+    return st
+
+
 def corpus_shard(arg):
     name, text, seed, nlayouts = arg
     st = Stats()
@@ -140,12 +190,31 @@ def corpus_shard(arg):
 
 
 def run(ctx):
+    from . import c02
+
+    jobs = [(1, k[0]) for k in c02.KINDS] + [(2, k[0]) for k in c02.KINDS]
+    if not ctx.quick:
+        jobs += [(3, k[0]) for k in c02.KINDS if k[0] in c02.REDUCED]
+    ctx.map(paren_enum_shard, jobs)
+    ctx.exhaustive = True
+    ctx.extra["exhaustive_bounds"] = "expression trees with <= %d operator nodes x every subset of redundantly parenthesised operands (<= 5 operands: all subsets)" % ctx.pick(2, 3)
     ctx.map(random_shard, [(s, ctx.pick(60, 1200), ctx.pick(6, 20)) for s in ctx.shard_seeds(16)])
     progs = corpus(big=not ctx.quick)
     ctx.map(corpus_shard, [(n, t, ctx.seed + i, ctx.pick(3, 10)) for i, (n, t) in enumerate(progs)])
 
 
 def replay(subcheck, case):
+    if case[0] == "parenenum":
+        from ..unitcheck import EXPR_CONTEXTS, unit_text
+
+        _, e, ci, pm, text = case
+        tu = M.freshen(EXPR_CONTEXTS[ci][1](e))
+        base = unit_text(tu, "min")
+        out = parse_outcome(base, "f.c", ("f.c",))
+        if out[0] != "ast":
+            return
+        compare(dump(out[1]), gen_text(out[1]), text, "replay", case)
+        return
     if case[0] == "paren":
         _, tu, mode, pm, text = case
         r = M.Renderer("min")
